@@ -27,10 +27,12 @@ func main() {
 			"over in-memory members with per-ID content {valid, missing, invalid} and per-member fault plans {healthy, always failing, failing at chosen call ordinals}; every result class and every member call is compared with a reference model of the documented policy. " +
 			"Concurrent legs (-race, yields at failover/swap hooks): failover with one healthy member (no request may fail, <= len(members) member calls per request), cache (no upstream call by a request that started after a successful request of that ID returned), " +
 			"swap under load (no request fails, no member is called after or while being closed, swap/serve history is linearizable against a register: porcupine). " +
+			"CLI leg: `desync cat` / `desync extract` with 1-3 -s arguments (single stores and a|b|c failover groups of local directories and HTTP servers, members holding each chunk valid / missing / invalid or answering 500) and an optional -c cache (local directory or writable HTTP server, --cache-repair on or off): exit status against the same policy model, output == blob, cache filled and repaired, no upstream GET for chunks the cache held valid. " +
 			"Non-trivial: sequential history with >=1 fall-through/failover/fill/repair event, concurrent history with >=2 overlapping requests; distinct by (leg, shape, fault plan class, event kinds)",
 		Assumptions:     []string{"reference model of router/cache/failover written from the documented policy (doc comments + README)", "concurrent interleavings are sampled"},
 		Cases:           cases,
 		Run:             run,
+		ParentSetup:     parentSetup,
 		SpinIsViolation: true,
 		MinNonTrivial:   20,
 		RaceIsViolation: true,
@@ -302,6 +304,10 @@ func classify(ch *desync.Chunk, err error, want []byte) string {
 
 func run(c *harness.Ctx, i int) {
 	desync.Digest = desync.SHA512256{}
+	if i%16 == 4 {
+		cliChain(c)
+		return
+	}
 	switch i % 8 {
 	case 0, 1, 2, 3, 4:
 		sequential(c, i)
@@ -460,6 +466,8 @@ func sequential(c *harness.Ctx, i int) {
 	}
 	c.Sample(map[string]interface{}{"leg": "sequential", "shape": shape, "plans": plans, "history": hist})
 }
+
+func sortStrings(s []string) { sort.Strings(s) }
 
 func isFailure(s string) bool { return s == "error" || s == "invalid" }
 
@@ -754,6 +762,7 @@ func concSwap(c *harness.Ctx) {
 	var fails []string
 	var wg sync.WaitGroup
 	var next int64 = -1
+	refused := 0
 	for wk := 0; wk < workers; wk++ {
 		wg.Add(1)
 		go func(wk int) {
@@ -789,6 +798,25 @@ func concSwap(c *harness.Ctx) {
 		defer wg.Done()
 		for s := 1; s <= nSwaps; s++ {
 			time.Sleep(time.Duration(rng.Intn(300)) * time.Microsecond)
+			if writable && rng.Intn(3) == 0 {
+				// a swap that must be refused (read-only store offered to a writable swap store): nothing may change,
+				// in particular the store that stays installed must not be closed
+				ro := mk(1000 + s)
+				err := ss.Swap(dsu.ReadOnlyMem{M: ro})
+				mu.Lock()
+				refused++
+				if err == nil {
+					fails = append(fails, fmt.Sprintf("swap %d: a read-only store was accepted in place of a writable one", s))
+				}
+				if len(ro.Calls()) > 0 {
+					fails = append(fails, fmt.Sprintf("swap %d: the refused store received requests", s))
+				}
+				cur := all[len(all)-1]
+				if cur.Closed() {
+					fails = append(fails, fmt.Sprintf("swap %d was refused (%v) but the store that stays installed (s%d) was closed", s, err, len(all)-1))
+				}
+				mu.Unlock()
+			}
 			ms := mk(s)
 			mu.Lock()
 			all = append(all, ms)
@@ -860,6 +888,7 @@ func concSwap(c *harness.Ctx) {
 	}
 	c.Count("swap_requests", int64(total))
 	c.Count("swap_swaps", int64(nSwaps))
+	c.Count("swap_refused", int64(refused))
 	c.Count("porcupine_histories", 1)
 	distinctServers := map[int]bool{}
 	for _, v := range served {
